@@ -29,12 +29,14 @@
 #include <yaclib_std/chrono>
 #include <yaclib_std/condition_variable>
 #include <yaclib_std/mutex>
+#include <yaclib_std/random>
 #include <yaclib_std/thread>
 
 namespace {
 
-enum Prog : int { kPoolStrand, kTimedWaits, kCoroMutex, kCombinators, kCondVarPingPong, kProgCount };
-const char* kProgNames[] = {"pool+strand", "timed waits", "coroutines+mutex", "combinators on a pool", "condvar ping-pong with timed waits"};
+enum Prog : int { kPoolStrand, kTimedWaits, kCoroMutex, kCombinators, kCondVarPingPong, kRandomDevice, kProgCount };
+const char* kProgNames[] = {"pool+strand", "timed waits", "coroutines+mutex", "combinators on a pool", "condvar ping-pong with timed waits",
+                            "clients of yaclib_std::random::random_device"};
 const std::uint32_t kFreqs[] = {1, 2, 5, 16};
 const std::uint32_t kPicks[] = {1, 3, 10};
 const std::uint32_t kTicks[] = {1, 10};
@@ -206,12 +208,48 @@ void ProgCondVar(const Params& p) {
   Ev(static_cast<std::uint64_t>(spins.load()));
 }
 
+// every fiber owns a yaclib_std::random::random_device; what it draws decides how much contended work the fiber does, so anything the
+// device depends on besides the seed (fiber ids, addresses, process history) shows up in the switch trace and in the events
+void ProgRandomDevice(const Params& p) {
+  yaclib_std::atomic<std::uint64_t> shared{0};
+  yaclib_std::random::random_device root_rd;
+  const std::uint32_t n = 2 + static_cast<std::uint32_t>(root_rd() % 3);
+  Ev(n);
+  std::deque<yaclib_std::thread> ts;
+  for (std::uint32_t i = 0; i < n; ++i) {
+    ts.emplace_back([&, i] {
+      yaclib_std::random::random_device rd;
+      const std::uint64_t x = rd();
+      Ev(7000 + 1000 * i + x % 997);
+      const std::uint32_t rounds = 1 + static_cast<std::uint32_t>(x % (2 + p.a % 3));
+      for (std::uint32_t r = 0; r < rounds; ++r) {
+        std::uint64_t cur = shared.load(std::memory_order_relaxed);
+        while (!shared.compare_exchange_weak(cur, cur + 1 + rd() % 5, std::memory_order_acq_rel, std::memory_order_relaxed)) {
+        }
+      }
+      if ((p.b & 1U) != 0) {
+        rd.reset();
+        Ev(8000 + 1000 * i + rd() % 997);
+      }
+    });
+  }
+  for (auto& t : ts) {
+    t.join();
+  }
+  Ev(shared.load());
+  if ((p.c & 1U) != 0) {
+    yaclib_std::random::random_device token_rd{"token"};
+    Ev(token_rd() % 997);
+  }
+}
+
 void RunProgram(const Params& p) {
   switch (p.prog) {
     case kPoolStrand: ProgPoolStrand(p); break;
     case kTimedWaits: ProgTimedWaits(p); break;
     case kCoroMutex: ProgCoroMutex(p); break;
     case kCombinators: ProgCombinators(p); break;
+    case kRandomDevice: ProgRandomDevice(p); break;
     default: ProgCondVar(p); break;
   }
 }
